@@ -6,6 +6,7 @@ from concurrent.futures import ThreadPoolExecutor
 VERIF = os.path.dirname(os.path.dirname(os.path.abspath(__file__)))
 REPO = os.environ.get('VERIF_REPO', '/repo')
 LIFT = os.path.join(VERIF, 'lift')
+REPLAY_DIR = os.environ.get('VERIF_REPLAY_DIR', os.path.join(VERIF, 'replay'))
 NCPU = int(os.environ.get('VERIF_JOBS', str(os.cpu_count() or 4)))
 MEM_KB = int(os.environ.get('VERIF_MEM_KB', str(20 * 1024 * 1024)))
 
@@ -428,7 +429,7 @@ def replay_failure(ctx, q, rec, slot):
     if r.trace_inputs is None:
         rec['replay'] = 'no trace (%s %s)' % (r.status, r.reason)
         return None, False
-    d = os.path.join(VERIF, 'replay', '%s_%s' % (ctx.pid, slot))
+    d = os.path.join(REPLAY_DIR, '%s_%s' % (ctx.pid, slot))
     os.makedirs(d, exist_ok=True)
     vp = os.path.join(d, 'values.txt')
     write_values(vp, r.trace_inputs)
@@ -578,8 +579,9 @@ def finish(ctx, bounds=None, rule='', trusted=None, extra=None):
     cov.update({k: v for k, v in ctx.extra.items() if k not in cov})
     ev = {'property_id': ctx.pid, 'tier': ctx.tier, 'seed': ctx.seed, 'level': ctx.level, 'coverage': cov,
           'assumptions': ctx.assumptions + (trusted or []), 'wall_s': round(wall, 1), 'violations': len(ctx.violations)}
-    os.makedirs(os.path.join(VERIF, 'evidence'), exist_ok=True)
-    with open(os.path.join(VERIF, 'evidence', ctx.pid + '.json'), 'w') as f:
+    evd = os.environ.get('VERIF_EVIDENCE_DIR', os.path.join(VERIF, 'evidence'))
+    os.makedirs(evd, exist_ok=True)
+    with open(os.path.join(evd, ctx.pid + '.json'), 'w') as f:
         json.dump(ev, f, indent=1, default=str)
     for k in ctx.known:
         print('KNOWN-FINDING: property=%s %s' % (ctx.pid, k))
